@@ -636,6 +636,42 @@ pub fn build_opts(o: &Opts) -> OptionParser<Val> {
     p
 }
 
+/// Which way into bpaf a launched process takes, as a function of what it was launched with
+/// (the simulated process and the real child compute it alike): 0 `OptionParser::run`,
+/// 1 the trait method `Parser::run` (only for a definition without decorations, which is what
+/// it builds), 2 the documented `try_run` pattern: print the failure, exit with its code.
+pub fn entry_for(o: &Opts, args_after_argv0: &[Vec<u8>]) -> u8 {
+    if o.bells() > 0 {
+        // `try_run(self)` destroys the parser before anything is printed; keep to `run`
+        return 0;
+    }
+    let n: usize = args_after_argv0.iter().map(|a| a.len() + 1).sum();
+    match n % 3 {
+        1 if *o == Opts::plain(o.root.clone()) => 1,
+        2 => 2,
+        _ => 0,
+    }
+}
+
+/// the program's `main` up to the point where it has its value
+pub fn run_via(o: &Opts, entry: u8) -> Val {
+    match entry {
+        1 => build(&o.root).run(),
+        2 => {
+            let p = build_opts(o);
+            #[allow(deprecated)]
+            match p.try_run() {
+                Ok(v) => v,
+                Err(f) => {
+                    f.print_message(100);
+                    crate::world::exit(f.exit_code())
+                }
+            }
+        }
+        _ => build_opts(o).run(),
+    }
+}
+
 // ---------------------------------------------------------------------------------------------
 // queries
 
